@@ -73,7 +73,7 @@ class Wavefunction:
 
     @property
     def amplitudes(self) -> Union[np.ndarray, Matrix]:
-        if self.free_symbols:
+        if isinstance(self._amplitude_vector, Matrix):
             return _cast_sympy_matrix_to_numpy(self._amplitude_vector, complex=True)
 
         return self._amplitude_vector
